@@ -840,6 +840,16 @@ func (m *stringMap) Get(k Value) (Value, bool) {
 func (m *stringMap) Set(k, v Value) {
 	key := string(k.value.(stringT))
 	if _, ok := m.data[key]; !ok {
+		if len(m.keys) != len(m.data) {
+			// drop keys deleted since the last compaction, so a re-inserted key is listed once
+			keys := make([]string, 0, len(m.data)+1)
+			for _, k := range m.keys {
+				if _, ok := m.data[k]; ok {
+					keys = append(keys, k)
+				}
+			}
+			m.keys = keys
+		}
 		m.keys = append(m.keys, key)
 	}
 	m.data[key] = v.assign(m.valueType)
@@ -920,6 +930,16 @@ func (m *numericMap) Get(k Value) (Value, bool) {
 func (m *numericMap) Set(k, v Value) {
 	key := k.num
 	if _, ok := m.data[key]; !ok {
+		if len(m.keys) != len(m.data) {
+			// drop keys deleted since the last compaction, so a re-inserted key is listed once
+			keys := make([]float64, 0, len(m.data)+1)
+			for _, k := range m.keys {
+				if _, ok := m.data[k]; ok {
+					keys = append(keys, k)
+				}
+			}
+			m.keys = keys
+		}
 		m.keys = append(m.keys, key)
 	}
 	m.data[key] = v.assign(m.valueType)
